@@ -225,6 +225,13 @@ def _mk_error(f, default):
         return OSError(errno.EAFNOSUPPORT, "sim: address family not supported")
     if k == "einval":
         return OSError(errno.EINVAL, "sim: invalid argument")
+    # failures of the same calls that are NOT OSErrors (what CPython raises for out-of-range arguments)
+    if k == "valueerror":
+        return ValueError("sim: Timeout value out of range")
+    if k == "overflow":
+        return OverflowError("sim: connect(): port must be 0-65535.")
+    if k == "typeerror":
+        return TypeError("sim: an integer is required (got type NoneType)")
     if k == "gaierror":
         return _real_socket.gaierror(_real_socket.EAI_NONAME, "sim: name or service not known")
     if k == "ssl":
